@@ -104,8 +104,10 @@ CHECKS = {
         technique='Coq proof of the saturating count arithmetic over arbitrarily nested REPEAT blocks + correspondence of every '
                   'loop-aware query with an interpreter of the unrolled stream and of API-call histories under ASan',
         text='Proof: add_saturate/mul_saturate exactly as written (mod 2^64 + test) equal min(.,2^64-1) and flat_count_operations over '
-             'any nesting equals min(exact unrolled count, 2^64-1) (counts_eq_unrolled_saturating). Tie H: the extracted model is '
-             'compared with the implementation for repeat counts up to 2^63; every loop-aware Circuit and DetectorErrorModel query '
+             'any nesting equals min(exact unrolled count, 2^64-1) (counts_eq_unrolled_saturating); the fast-forward algorithm of '
+             'get_final_qubit_coords (run a REPEAT body once, advance coordinates and shift by (reps-1) gains) equals executing the '
+             'unrolled program for every program, nesting and repetition count (QCoords.ffl_is_unrolled). Tie H: the extracted models are '
+             'compared with the implementation for repeat counts up to 2^63 (counts) and 2^40 (coordinates); every loop-aware Circuit and DetectorErrorModel query '
              '(counts, max lookback, compute_stats, final coordinate shift, final qubit coordinates incl. repeated qubits, detector '
              'coordinates, total detector shift) against an interpreter executing the unrolled stream on random nested programs; '
              'histories of 3-14 mutating API calls (+, +=, *, *=, insert, insert/append repeat block with tags, append text, slices, '
